@@ -1,6 +1,9 @@
 #!/bin/bash
-# Coverage-guided libFuzzer campaign for C04 (decode_total) / C06 (volume_total): thorough tier only.
-# usage: ./fuzz_campaign.sh <C04|C06>
+# Coverage-guided libFuzzer campaigns, thorough tier only:
+#   byte-level targets      C04 (decode_total), C06 (volume_total): raw bytes into the decode entry points
+#   structured targets      C01 (volume_scan), C02 (type31_fidelity), C03 (stream_framing), C14 (summary_model):
+#                           bytes -> arbitrary::Unstructured -> generated case -> the property's semantic oracle
+# usage: ./fuzz_campaign.sh <C01|C02|C03|C04|C06|C14>
 # Built WITHOUT AddressSanitizer (-s none): the three crates forbid unsafe code, the only C code (libbz2) is not
 # instrumented by cargo-fuzz anyway, and ASan's mmap traffic on the multi-megabyte buffers these targets
 # allocate cut throughput 20-50x on this machine.  The oracle (no panic, allocation bound, shape) is inside the target.
@@ -13,7 +16,11 @@ ID="$1"
 case "$ID" in
   C04) TARGET=decode_total; TOTAL_RUNS=${FUZZ_RUNS:-160000000}; MAXLEN=16384 ;;
   C06) TARGET=volume_total; TOTAL_RUNS=${FUZZ_RUNS:-24000000}; MAXLEN=8192 ;;
-  *) echo "fuzz campaigns exist for C04 and C06"; exit 2 ;;
+  C01) TARGET=volume_scan; TOTAL_RUNS=${FUZZ_RUNS:-4800000}; MAXLEN=8192 ;;
+  C02) TARGET=type31_fidelity; TOTAL_RUNS=${FUZZ_RUNS:-96000000}; MAXLEN=4096 ;;
+  C03) TARGET=stream_framing; TOTAL_RUNS=${FUZZ_RUNS:-800000}; MAXLEN=8192 ;;
+  C14) TARGET=summary_model; TOTAL_RUNS=${FUZZ_RUNS:-16000000}; MAXLEN=8192 ;;
+  *) echo "fuzz campaigns exist for C01, C02, C03, C04, C06 and C14"; exit 2 ;;
 esac
 PROCS=${FUZZ_PROCS:-16}
 SEED=${VERIF_SEED:-0}
